@@ -111,12 +111,6 @@ theorem C09_dihedral_search_symmetric (t : TypeTable) (a : Key) (ha : a.length =
       wildcards k1 = wildcards k2 ∧ (UniqueBest t a → k1 = k2)) :=
   matchDihedral_symm patterns C09_table_facts t a ha
 
-theorem keyMatches_self (a : Key) : keyMatches a a = true := by
-  simp only [keyMatches, beq_self_eq_true, Bool.true_and]
-  induction a with
-  | nil => rfl
-  | cons x rest _ => simp
-
 /-- The PARAMETERS found for a dihedral listed as `(a,b,c,d)` and as `(d,c,b,a)` are equal (the whole
 lookup of `gen_bonded_interactions`: exact key, reversed key, wildcard search), for every type table in
 which the least-wildcarded matching key is unique. -/
